@@ -8,6 +8,23 @@ class WritePotentialException(Exception):
   pass
 
 
+def _formatRecord(values):
+  """Formats a record of a TABLE file: each value in a field of 15 characters.
+
+  A value whose exponent has three digits (magnitude below 1e-99 or from 1e100) is written with six decimals
+  instead of seven, otherwise its field would be 16 characters wide and shift the rest of the record.
+
+  @param values The values of the record
+  @return Line of text containing the record"""
+  fields = []
+  for value in values:
+    field = u" % 14.7e" % value
+    if len(field) > 15:
+      field = u" % 14.6e" % value
+    fields.append(field)
+  return u"".join(fields) + u"\n"
+
+
 def _writePotential(potential, cutoff, gridPoints, meshResolution, out ):
   """Given a writeTABLE.Potential object, will write it to the given stream (out)
   in the correct DL_POLY TABLE file format.
@@ -28,11 +45,6 @@ def _writePotential(potential, cutoff, gridPoints, meshResolution, out ):
   #Write the potential's header
   outputbuilder.write(u"%(atom1)8s%(atom2)8s\n" % { 'atom1' : potential.speciesA, 'atom2' : potential.speciesB})
 
-  #Write the data records
-  dataTemplate = u" % 14.7e"
-  dataTemplate = dataTemplate+ u" % 14.7e" * 3
-  dataTemplate = dataTemplate + u"\n"
-
   #First, do the energies
   l = []
   r=0.0
@@ -42,7 +54,7 @@ def _writePotential(potential, cutoff, gridPoints, meshResolution, out ):
 
     if len(l) == 4:
       #List has 4 elements, dump a row
-      outputbuilder.write(dataTemplate % tuple(l))
+      outputbuilder.write(_formatRecord(l))
       #Reset the list
       l = []
 
@@ -55,7 +67,7 @@ def _writePotential(potential, cutoff, gridPoints, meshResolution, out ):
 
     if len(l) == 4:
       #List has 4 elements, dump a row
-      outputbuilder.write(dataTemplate % tuple(l))
+      outputbuilder.write(_formatRecord(l))
       #Reset the list
       l = []
 
